@@ -7,7 +7,7 @@ import re
 
 from checks import _codec
 from checks._codec import Codec, events, macro_placeholders, unplaceholder
-from nvsa import j2front, j2text
+from nvsa import j2front, j2text, pyfront
 from nvsa.j2front import xs
 from nvsa.report import AnalysisError
 
@@ -259,3 +259,6 @@ def run(ctx):
     rule_reject(ctx, cd)
     rule_errprop(ctx, cd, "ser", "R-C01-ERRPROP")
     rule_advance(ctx, cd)
+    _codec.rule_zero_cost(ctx, pyfront.PyIndex(ctx.root), "R-C01-ZEROCOST")
+    _codec.rule_sat_use(ctx, cd, "R-C01-SAT-USE")
+    _codec.rule_offset_sets(ctx, cd, "ser", "R-C01-OFFSET-SET")
